@@ -15,6 +15,8 @@ static void c01_run(vf_case *c)
     gen_run_opts(r, &o, 1);
     if (big) o.tuning_small = 0;
     gen_tuning(r, o.tuning_small);
+    /* long supernodes that straddle wide panels, natural order: the blocked within-panel update paths with partial segments */
+    if (g.pattern == PAT_LOWERDENSE && rng_bool(r, 0.6)) { o.opt.ColPerm = NATURAL; o.my_permc = 0; o.opt.SymmetricMode = NO; vf_ienv_set(1, rng_int(r, 6, 8)); vf_ienv_set(3, rng_int(r, 5, 10)); vf_ienv_set(2, rng_int(r, 1, 2)); }
     int n = A.n, nrhs = o.nrhs, ldb = n + o.ldpad; if (ldb < 1) ldb = 1;
     gen_spec_str(&g, buf, sizeof buf); vf_desc(c, "%s; ", buf);
     run_opts_str(&o, buf, sizeof buf); vf_desc(c, "%s; ", buf);
